@@ -38,10 +38,18 @@ package tcp
 //@ func (*tcpProc).HandleConn
 //@   prop C05 C06 C20
 //@   requires p != nil
+//@   nocall closeRead
+//@   nocall closeWrite
+//@   nocall CloseRead
+//@   nocall CloseWrite
 //@   callpre pipeConn @backend-to-client arg1 == sconn && ifaceloc(arg2) == cconn
 
 //@ func (*tcpProc).HandleConn$3
 //@   prop C05
+//@   nocall closeRead
+//@   nocall closeWrite
+//@   nocall CloseRead
+//@   nocall CloseWrite
 //@   requires deref(done) != nil && !closed(deref(done))
 //@   callpre pipeConn @client-to-backend ifaceloc(arg1) == deref(cconn) && arg2 == deref(sconn)
 
